@@ -19,7 +19,7 @@ func init() {
 		Run:   runC20,
 		Explain: "(a) effect inventory: the calls of CLIManager.Install that can modify the plugin directory (module callees that transitively reach an os mutator and receive the manager or a SysPath-derived path) are enumerated; " +
 			"(b) gates: each of them is reachable only through non-empty source path, the certified name validation, NewCLIPlugin and GetMetadata success of the new plugin, all on the one name value that is also used for Get, Uninstall and SysPath; " +
-			"(c) decision table (abstract interpretation of Install over source kind x overwrite x existence x metadata error x comparison error x comparison result, 216 scenarios): an effect is reachable exactly when the source is usable and " +
+			"(c) decision table (abstract interpretation of Install, and of the helpers of Install that consume a scenario input — source resolution, existence check, version gate — whose outcomes are bound to their results in Install, over source kind x overwrite x existence x metadata error x comparison error x comparison result, 216 scenarios): an effect is reachable exactly when the source is usable and " +
 			"(overwrite, or no plugin exists, or the comparison succeeded with new > existing); the first effect is always the clean-up; after it the directory source reaches only CopyDirToDir and the file source only CopyToDir; " +
 			"(d) copies happen only after the clean-up returned nil or not-exist, into SysPath(name), from the source that was validated; success is returned only after a copy succeeded, with the new plugin's metadata; " +
 			"(e) version comparison: both versions pass the module's validity predicate, whose constant pattern classifies the semver.org corpus correctly, before x/mod Compare(\"v\"+new, \"v\"+existing); arguments in (new, existing) order; " +
@@ -139,54 +139,50 @@ func runC20(c *Ctx) {
 	X := desc(nameV)
 	var getC, cmpC *ssa.Call
 	var newMD, oldMD ssa.CallInstruction
-	for _, ci := range allCalls(INST) {
-		cc, ok := ci.(*ssa.Call)
-		if !ok {
-			continue
-		}
-		switch calleeName(cc) {
-		case "(*ngo/plugin.CLIManager).Get":
-			getC = cc
-		case "ngo/internal/semver.ComparePluginVersion":
-			cmpC = cc
+	// the lookup of the existing plugin: Get (in Install or in a helper of Install), or the worker Get delegates to, called
+	// under Get's own checks (c20FindLookup)
+	var getName ssa.Value
+	lookup, lookupWhy := c20FindLookup(w, INST)
+	if lookup != nil {
+		getC = lookup.call
+		// the name and the manager of the lookup, in terms of Install's own values
+		getName = c20InFrameOfRoot(lookup.name, lookup.via)
+		if m := c20InFrameOfRoot(lookup.recv, lookup.via); m != ssa.Value(INST.Params[0]) {
+			getC, lookupWhy = nil, "the existing plugin is not looked up in the manager that installs"
 		}
 	}
-	for _, ci := range allCalls(INST) {
-		cc, ok := ci.(*ssa.Call)
-		if !ok {
-			continue
-		}
-		n := calleeName(cc)
-		if strings.HasSuffix(n, ".GetMetadata") {
-			r := desc(callArgs(cc)[0])
-			if r == desc(newP)+"#0" {
-				newMD = cc
-			} else if getC != nil && r == desc(getC)+"#0" {
-				oldMD = cc
+	// the comparison: in Install or below it
+	var cmpVia []*ssa.Call
+	if found := c20FindCalls(w, INST, func(cc *ssa.Call) bool { return calleeName(cc) == "ngo/internal/semver.ComparePluginVersion" }); len(found) == 1 {
+		cmpC, cmpVia = found[0].call, found[0].via
+	}
+	// GetMetadata of the new plugin (in Install) and of the existing one (where the lookup is)
+	mdOf := func(fn *ssa.Function, of *ssa.Call) ssa.CallInstruction {
+		var out ssa.CallInstruction
+		for _, ci := range allCalls(fn) {
+			cc, ok := ci.(*ssa.Call)
+			if !ok || !strings.HasSuffix(calleeName(cc), ".GetMetadata") {
+				continue
+			}
+			// by value: the receiver is the first result of NewCLIPlugin / of the lookup (the printed form of a result may be
+			// the expression a helper returns)
+			if rv := callArgs(cc)[0]; desc(rv) == desc(of)+"#0" || c20IsResult(rv, of, 0) {
+				out = cc
 			}
 		}
+		return out
+	}
+	newMD = mdOf(INST, newP)
+	if getC != nil {
+		oldMD = mdOf(getC.Parent(), getC)
 	}
 	// the version gate may live in a helper of Install: `gate(…, newVersion, existingVersion) error`
 	var gateCall *ssa.Call
-	if cmpC == nil {
-		for _, ci := range allCalls(INST) {
-			hc, ok := ci.(*ssa.Call)
-			if !ok {
-				continue
-			}
-			H := staticCallee(hc)
-			if H == nil || !w.IsProductFn(H) || !isErrorType(hc.Type()) {
-				continue
-			}
-			for _, ci2 := range allCalls(H) {
-				if cc, ok := ci2.(*ssa.Call); ok && calleeName(cc) == "ngo/internal/semver.ComparePluginVersion" {
-					cmpC, gateCall = cc, hc
-				}
-			}
-		}
+	if len(cmpVia) == 1 && isErrorType(cmpVia[0].Type()) {
+		gateCall = cmpVia[0]
 	}
 	if getC == nil || cmpC == nil || newMD == nil || oldMD == nil {
-		c.Unk("anchor/install-shape", "anchor: Get, GetMetadata of new and existing plugin, ComparePluginVersion in Install", w.FnPos(INST), fmt.Sprintf("get=%v cmp=%v newMD=%v oldMD=%v", getC != nil, cmpC != nil, newMD != nil, oldMD != nil))
+		c.Unk("anchor/install-shape", "anchor: Get, GetMetadata of new and existing plugin, ComparePluginVersion in Install", w.FnPos(INST), c20Join(fmt.Sprintf("get=%v cmp=%v newMD=%v oldMD=%v", getC != nil, cmpC != nil, newMD != nil, oldMD != nil), lookupWhy))
 		return
 	}
 	// (b) gates per effect
@@ -234,7 +230,12 @@ func runC20(c *Ctx) {
 		c.Check(g1 && g2 && g3 && g4 && nm == X, key, "an effect on the plugin directory is reachable only after: non-empty source path, certified name validation, NewCLIPlugin success, GetMetadata success of the new plugin; it works on that same name", w.InstrPos(e.call),
 			fmt.Sprintf("%s: source-path=%v name-valid=%v new-plugin=%v new-metadata=%v same-name=%v", e.name, g1, g2, g3, g4, nm == X))
 	}
-	c.Check(desc(getC.Call.Args[2]) == X, "gates/existing-lookup-name", "the existing plugin is looked up under the name that is installed", w.InstrPos(getC), desc(getC.Call.Args[2]))
+	c.Check(getName != nil && desc(getName) == X, "gates/existing-lookup-name", "the existing plugin is looked up under the name that is installed", w.InstrPos(getC), func() string {
+		if getName == nil {
+			return "the name is computed in a helper"
+		}
+		return desc(getName)
+	}())
 	// the certified validator
 	if v := w.Func("internal/file", "IsValidFileName"); v != nil {
 		ok, why := certifyFileNameValidator(w, v)
@@ -248,12 +249,23 @@ func runC20(c *Ctx) {
 		}
 		c.Check(ok, "gates/name-validator", "the name validator accepts only single path components (no separator, NUL, empty, dot names)", w.FnPos(v), why)
 	}
+	// a helper that only turns the comparison into a refusal is certified on its own (c20GateHelper) and the table uses
+	// that lemma; a helper that also receives a flag (the overwrite option) is interpreted by the table itself, with the
+	// flag bound to the scenario's value (c20Frames)
+	lemma := gateCall
 	if gateCall != nil {
+		for _, p := range staticCallee(gateCall).Params {
+			if c20IsBoolType(p.Type()) {
+				lemma = nil
+			}
+		}
+	}
+	if lemma != nil {
 		if !c20GateHelper(c, gateCall, cmpC) {
 			return
 		}
 	}
-	c20Table(c, INST, effects, optsP, boolField, getC, cmpC, oldMD.(*ssa.Call), gateCall)
+	c20Table(c, INST, effects, optsP, boolField, getC, cmpC, oldMD.(*ssa.Call), lemma)
 	c20Order(c, INST, effects, newP, newMD.(*ssa.Call), optsP)
 	c20Semver(c, cmpC, newMD.(*ssa.Call), oldMD.(*ssa.Call), gateCall)
 	c20Discovery(c, INST)
@@ -264,23 +276,34 @@ func runC20(c *Ctx) {
 // (c) the decision table
 func c20Table(c *Ctx, INST *ssa.Function, effects []c20Effect, optsP, boolField string, getC, cmpC, oldMD, gateCall *ssa.Call) {
 	w := c.W
-	var parseC *ssa.Call
-	for _, ci := range allCalls(INST) {
-		if cc, ok := ci.(*ssa.Call); ok {
-			// by role, not by argument position: the module function with results (file, name, error) that is handed a field
-			// of the install options (the source path) — whatever else it receives (a context, a logger)
-			if g := staticCallee(cc); g != nil && w.IsProductFn(g) && g.Signature.Results().Len() == 3 && isErrorType(g.Signature.Results().At(2).Type()) {
-				for _, a := range cc.Call.Args {
-					if strings.HasPrefix(desc(a), optsP+".") {
-						parseC = cc
-					}
-				}
-			}
-		}
-	}
-	if parseC == nil {
-		c.Unk("table/anchor", "anchor: the source-directory parser call in Install", w.FnPos(INST), "not found")
+	// by role, not by position: the module function with results (file, name, error) that walks a directory and is handed a
+	// field of the install options (the source path) — whatever else it receives (a context, a logger), in Install itself
+	// or in a helper of Install that receives the source path as a parameter (c20FindParser)
+	parsers := c20FindParser(w, INST, optsP)
+	if len(parsers) != 1 {
+		c.Unk("table/anchor", "anchor: the source-directory parser call in Install", w.FnPos(INST), fmt.Sprintf("%d calls of a source parser with the source path of the install options found below Install", len(parsers)))
 		return
+	}
+	parseC := parsers[0].call
+	// the helpers between Install and an anchor are interpreted under each scenario (c20Frames)
+	fr := &c20Frames{w: w, expand: map[*ssa.Call]bool{}}
+	for _, v := range parsers[0].via {
+		fr.expand[v] = true
+		c.SeenFn(staticCallee(v).String())
+	}
+	for _, anchor := range []*ssa.Call{getC, oldMD, cmpC} {
+		if anchor.Parent() == INST || (gateCall != nil && anchor == cmpC) {
+			continue
+		}
+		found := c20FindCalls(w, INST, func(cc *ssa.Call) bool { return cc == anchor })
+		if len(found) != 1 {
+			c.Unk("table/anchor", "anchor: the calls the decision table is about lie in Install or in helpers of Install", w.InstrPos(anchor), "no single chain of calls leads from Install to this call")
+			return
+		}
+		for _, v := range found[0].via {
+			fr.expand[v] = true
+			c.SeenFn(staticCallee(v).String())
+		}
 	}
 	type scen struct {
 		src        string // dir | file | err
@@ -336,6 +359,9 @@ func c20Table(c *Ctx, INST *ssa.Function, effects []c20Effect, optsP, boolField 
 				return AVal{Kind: aBool, B: cur.src == "file"}, true
 			case errOf(a0, getC) && (a1 == "global:os.ErrNotExist" || a1 == "global:io/fs.ErrNotExist"):
 				return AVal{Kind: aBool, B: cur.get == "notexist"}, true
+			case errOf(a0, parseC) && cur.src == "err", errOf(a0, getC) && cur.get == "other":
+				// "some other error": whether it matches a third sentinel is not known
+				return top, true
 			case errOf(a0, parseC) || errOf(a0, getC):
 				return AVal{Kind: aBool, B: false}, true
 			}
@@ -371,40 +397,50 @@ func c20Table(c *Ctx, INST *ssa.Function, effects []c20Effect, optsP, boolField 
 							if allowed {
 								nAllowed++
 							}
-							ip := &Interp{Fn: INST, Hook: hook, IntTypes: map[string]bool{"*": true}}
-							outs := ip.Run(INST.Blocks[0], nil, map[ssa.Value]AVal{}, stops, nil)
-							if ip.Overflow {
-								c.Unk("table/decision", "decision table of Install", w.FnPos(INST), "path budget exceeded")
-								return
-							}
 							hit := false
-							for _, o := range outs {
-								nPaths++
-								if o.Stop == nil {
-									continue
+							over := false
+							fr.base = hook
+							fr.choices(INST, 0, func(choice map[*ssa.Call]*c20Res) {
+								var ip *Interp
+								ip = &Interp{Fn: INST, IntTypes: map[string]bool{"*": true}}
+								ip.Hook = fr.hook(&ip, choice)
+								outs := ip.Run(INST.Blocks[0], nil, map[ssa.Value]AVal{}, stops, nil)
+								if ip.Overflow || fr.over {
+									over = true
+									return
 								}
-								hit = true
-								if !allowed {
-									bad = append(bad, fmt.Sprintf("%+v reaches %s at %s", cur, nameOf[o.Stop], w.InstrPos(o.Stop.Instrs[0])))
-									continue
-								}
-								if kindOf[o.Stop] != "cleanup" {
-									bad = append(bad, fmt.Sprintf("%+v: first effect is %s (no clean-up before it)", cur, nameOf[o.Stop]))
-									continue
-								}
-								// phase 2: from the clean-up onwards
-								outs2 := ip.Run(o.Stop, o.From, o.Env, copyStops, nil)
-								for _, o2 := range outs2 {
+								for _, o := range outs {
 									nPaths++
-									if o2.Stop == nil {
+									if o.Stop == nil {
 										continue
 									}
-									n := nameOf[o2.Stop]
-									fromDir := strings.Contains(n, "Dir") && strings.Count(n, "Dir") >= 2
-									if (src == "dir") != fromDir {
-										bad = append(bad, fmt.Sprintf("%+v: source kind %s reaches %s", cur, src, n))
+									hit = true
+									if !allowed {
+										bad = append(bad, fmt.Sprintf("%+v reaches %s at %s", cur, nameOf[o.Stop], w.InstrPos(o.Stop.Instrs[0])))
+										continue
+									}
+									if kindOf[o.Stop] != "cleanup" {
+										bad = append(bad, fmt.Sprintf("%+v: first effect is %s (no clean-up before it)", cur, nameOf[o.Stop]))
+										continue
+									}
+									// phase 2: from the clean-up onwards
+									outs2 := ip.Run(o.Stop, o.From, o.Env, copyStops, nil)
+									for _, o2 := range outs2 {
+										nPaths++
+										if o2.Stop == nil {
+											continue
+										}
+										n := nameOf[o2.Stop]
+										fromDir := strings.Contains(n, "Dir") && strings.Count(n, "Dir") >= 2
+										if (src == "dir") != fromDir {
+											bad = append(bad, fmt.Sprintf("%+v: source kind %s reaches %s", cur, src, n))
+										}
 									}
 								}
+							})
+							if over {
+								c.Unk("table/decision", "decision table of Install", w.FnPos(INST), "path budget exceeded")
+								return
 							}
 							if allowed && hit {
 								reachedAllowed++
@@ -415,7 +451,8 @@ func c20Table(c *Ctx, INST *ssa.Function, effects []c20Effect, optsP, boolField 
 			}
 		}
 	}
-	c.Evals += nPaths
+	c.Evals += nPaths + fr.paths
+	bad = uniq(bad)
 	sort.Strings(bad)
 	if len(bad) > 0 {
 		c.Bad("table/decision", fmt.Sprintf("decision table of Install (%d scenarios): the plugin directory is touched only if the source is usable and (overwrite, or no plugin of that name exists, or the comparison succeeded with new > existing); the first effect is the clean-up; each source kind reaches only its own copy routine", nScen), w.FnPos(INST),
@@ -495,23 +532,16 @@ var c20SemverInvalid = []string{"", "1", "1.2", "1.2.3-0123", "1.2.3-0123.0123",
 // (e) version comparison
 func c20Semver(c *Ctx, cmpC, newMD, oldMD, gateCall *ssa.Call) {
 	w := c.W
-	a0, a1 := desc(cmpC.Call.Args[0]), desc(cmpC.Call.Args[1])
-	if gateCall != nil {
-		// arguments of the comparison in the helper's frame, rewritten into Install's frame
-		H := staticCallee(gateCall)
-		var names, descs []string
-		for i, p := range H.Params {
-			if i < len(gateCall.Call.Args) {
-				names = append(names, p.Name())
-				descs = append(descs, desc(gateCall.Call.Args[i]))
-			}
-		}
-		a0, a1 = substParams(a0, names, descs), substParams(a1, names, descs)
-	}
-	okArgs := strings.HasPrefix(a0, desc(newMD)+"#0.") && strings.HasPrefix(a1, desc(oldMD)+"#0.") && strings.TrimPrefix(a0, desc(newMD)+"#0") == strings.TrimPrefix(a1, desc(oldMD)+"#0")
+	// the arguments of the comparison and the metadata call of the existing plugin may live in helper frames below Install:
+	// everything is rewritten into Install's frame (a parameter of a helper is what the call of the helper passes for it)
+	INST := newMD.Parent()
+	a0, a1 := c20DescInRoot(c.W, INST, cmpC, cmpC.Call.Args[0]), c20DescInRoot(c.W, INST, cmpC, cmpC.Call.Args[1])
+	oldD := c20DescInRoot(c.W, INST, oldMD, oldMD)
+	_ = gateCall
+	okArgs := strings.HasPrefix(a0, desc(newMD)+"#0.") && strings.HasPrefix(a1, oldD+"#0.") && strings.TrimPrefix(a0, desc(newMD)+"#0") == strings.TrimPrefix(a1, oldD+"#0")
 	if !okArgs {
 		// the existing metadata may be read through the variable holding it
-		okArgs = strings.HasPrefix(a0, desc(newMD)+"#0.") && strings.Contains(a1, desc(oldMD)+"#0") && strings.HasSuffix(a1, a0[strings.LastIndex(a0, "."):])
+		okArgs = strings.HasPrefix(a0, desc(newMD)+"#0.") && strings.Contains(a1, oldD+"#0") && strings.HasSuffix(a1, a0[strings.LastIndex(a0, "."):])
 	}
 	c.Check(okArgs, "semver/argument-order", "the comparison receives (version reported by the new plugin, version reported by the existing plugin), in this order", w.InstrPos(cmpC), a0+" vs "+a1)
 	CMP := staticCallee(cmpC)
